@@ -263,3 +263,51 @@ func OneShotAtMostOnce(res *fw.Result) error {
 	}
 	return nil
 }
+
+// AfterExit: calls issued after the connection goroutine has terminated — after the closer, or after a
+// loss on a no-reconnect client — must return an error, not block (the callers select on the exit
+// signal); the same for a call that is cancelled afterwards.
+func AfterExit(d *fw.Driver, res *fw.Result, seed int64) error {
+	for i, how := range []string{"closer", "loss-noreconnect"} {
+		run, closer, cancel, err := newRunner(seed+int64(i)*13, 1, how != "loss-noreconnect")
+		if err != nil {
+			return err
+		}
+		sig := "calls after the connection goroutine ended how=" + how
+		base := nextToks(20)
+		first := run.Go("count", base, "before")
+		first.Wait(2 * time.Second)
+		if how == "closer" {
+			scenClose(res, closer, sig)
+		} else {
+			run.E.PX.Cut(0, "rst")
+			run.E.RT.WaitCount("main.exited", 1, 2*time.Second)
+		}
+		for k := 0; k < 3; k++ {
+			c := run.Go("count", base+1+k, "after-exit")
+			if !c.Wait(2 * time.Second) {
+				res.Add(fw.Finding{Kind: "monitor", Signature: sig + " call blocks", Detail: fmt.Sprintf("call %d issued after the connection goroutine had ended (%s) did not return within 2s", k, how),
+					Case: map[string]interface{}{"scenario": "after-exit", "how": how}})
+				break
+			} else if c.Err == nil {
+				res.Add(fw.Finding{Kind: "monitor", Signature: sig + " call succeeds", Detail: "a call issued after the connection goroutine had ended returned a result",
+					Case: map[string]interface{}{"scenario": "after-exit", "how": how}})
+			}
+		}
+		if how != "closer" {
+			scenClose(res, closer, sig)
+		}
+		time.Sleep(3 * time.Millisecond)
+		evs := run.E.RT.Events()
+		if _, err := Check(d, res, evs, ClientConn(evs), sig); err != nil {
+			cancel()
+			run.E.Close()
+			return err
+		}
+		res.Count("after-exit." + how)
+		res.Eval(true, []interface{}{"after-exit", how})
+		cancel()
+		run.E.Close()
+	}
+	return nil
+}
